@@ -147,6 +147,10 @@ func postC05(res *RunResult) {
 	postNoPanic(res)
 	for i, c := range res.Stats.cases {
 		out := res.Stats.impl[i]
+		if strings.HasPrefix(out, "writer-kind-differs") {
+			addViolation(res, c, out, "Encode writes other bytes into a plain io.Writer / a bufio.Writer than into a bytes.Buffer ("+out+")")
+			continue
+		}
 		if strings.HasPrefix(out, "fault-swallowed") {
 			addViolation(res, c, out, "Encode reported success although the writer failed: the bytes written are not the whole stream ("+out+")")
 			continue
